@@ -81,8 +81,8 @@ func checkMarshalRoot(pj *simdjson.ParsedJson, ex *expect) (what string) {
 	if v == ref.Invalid {
 		return fmt.Sprintf("MarshalJSON output is not valid JSON: %s", clip(string(out)))
 	}
-	if got := renderDocs(docs, renderNum); got != ex.numeric {
-		return fmt.Sprintf("MarshalJSON denotes %s, document is %s", clip(got), clip(ex.numeric))
+	if !ref.NumericEqualDocs(ex.docs, docs) {
+		return fmt.Sprintf("MarshalJSON denotes %s, document is %s", clip(renderDocs(docs, renderNum)), clip(ex.numeric))
 	}
 	return ""
 }
